@@ -296,6 +296,11 @@ func runJSON(st *state, line, expect string) (string, string) {
 	if !json.Valid(jb) {
 		return out, "fail:invalid not a valid JSON document: " + clip(string(jb), 300)
 	}
+	// "lines received by the message-queue sink": the raw-socket producer frames one payload per line, so a payload
+	// holding a raw line feed — legal JSON white space — reaches the sink as two lines, neither a document (seed C05-h)
+	if i := bytes.IndexByte(jb, '\n'); i >= 0 {
+		return out, fmt.Sprintf("fail:linefeed the payload holds a raw line feed at octet %d: the line-framed sink receives it as %d lines, none of them a JSON document", i, bytes.Count(jb, []byte{'\n'})+1)
+	}
 	var doc struct {
 		AgentID  string
 		Header   map[string]json.Number
